@@ -1,1 +1,153 @@
+(* C24  Lemmas about the circuit-cutting model (QcutModel.v). *)
+From Coq Require Import List ZArith QArith Qcanon Bool Ring Field Lia Permutation.
 From PLV Require Import Num.ShadowsModel Num.ShadowsProofs Num.QcutModel.
+Import ListNotations.
+
+(* ------------------------------------------------------------------ constants *)
+Lemma two_neq0 : (1 + 1 <> 0)%Qc.
+Proof. intro H. apply (f_equal this) in H. vm_compute in H. discriminate H. Qed.
+Lemma qhalf_inv : qhalf = (/ (1 + 1))%Qc.
+Proof. apply qeqb_eq. vm_compute. reflexivity. Qed.
+Lemma chalf_double : forall x, cmul chalf (cadd x x) = x.
+Proof.
+  intros [a b]. unfold chalf, cq, cmul, cadd. cbn [fst snd]. rewrite qhalf_inv.
+  f_equal; field; exact two_neq0.
+Qed.
+Lemma oscale_oscale : forall n a b X, oscale n a (oscale n b X) = oscale n (cmul a b) X.
+Proof. intros; apply op_ext; intro; rewrite !entry_oscale; ring. Qed.
+
+Lemma pair_ext : forall {A B} (a c : A) (b d : B), a = c -> b = d -> (a, b) = (c, d).
+Proof. intros; subst; reflexivity. Qed.
+
+(* ------------------------------------------------------------------ the single-qubit tables *)
+Definition m2 (a b c d : C) : M2 := mkQ a b c d.
+Lemma pauli_sum_twice : forall a b c d : C,
+  osum 1 (map (fun p => oscale 1 (pairing 1 (m2 a b c d) (pmat p)) (pmat p)) paulis)
+  = m2 (cadd a a) (cadd b b) (cadd c c) (cadd d d).
+Proof.
+  intros [a1 a2] [b1 b2] [c1' c2] [d1 d2].
+  unfold osum, paulis, map, fold_right, pmat, pI, pX, pY, pZ, m2, ci, c1, cz.
+  cbn [pairing oscale oadd ozero q00 q01 q10 q11].
+  unfold cmul, cadd, copp, cz. cbn [fst snd].
+  f_equal; apply pair_ext; ring.
+Qed.
+Lemma wirecut_id : forall a b c d : C,
+  oscale 1 chalf (osum 1 (map (fun p => oscale 1 (pairing 1 (m2 a b c d) (pmat p)) (pmat p)) paulis))
+  = m2 a b c d.
+Proof.
+  intros. rewrite pauli_sum_twice. unfold m2. cbn [oscale q00 q01 q10 q11].
+  rewrite !chalf_double. reflexivity.
+Qed.
+Lemma pairing1_sym : forall x y : M2, pairing 1 x y = pairing 1 y x.
+Proof. intros [a b c d] [e f g h]. cbn [pairing q00 q01 q10 q11]. ring. Qed.
+
+Lemma prepare_resolution : forall p,
+  pmat p = osum 1 (map (fun s => oscale 1 (cob p s) (pstate s)) preps).
+Proof. intros [| | |]; apply (oeqb_eq 1); vm_compute; reflexivity. Qed.
+Lemma prep_circuits : forall s, density (run_prep (prep_ops s)) = pstate s.
+Proof. intros [| | |]; apply (oeqb_eq 1); vm_compute; reflexivity. Qed.
+Lemma mc_circuits : forall s, density (run_prep (mc_ops s)) = mc_density s.
+Proof. intros [| | | | |]; apply (oeqb_eq 1); vm_compute; reflexivity. Qed.
+Lemma pstate_trace1_herm : forall s, otr 1 (pstate s) = c1 /\ oadj 1 (pstate s) = pstate s
+                                     /\ omul 1 (pstate s) (pstate s) = pstate s.
+Proof. intros [| | |]; repeat split; (apply (oeqb_eq 1) || apply ceqb_eq); vm_compute; reflexivity. Qed.
+
+(* ------------------------------------------------------------------ linearity *)
+Lemma pairing_add_r : forall n A X Y, pairing n A (oadd n X Y) = cadd (pairing n A X) (pairing n A Y).
+Proof.
+  induction n as [|m IH]; intros A X Y.
+  - cbn [pairing oadd]; ring.
+  - cbn [pairing oadd q00 q01 q10 q11]; rewrite !IH; ring.
+Qed.
+Lemma pairing_osum_r : forall n {T} (c : T -> C) (h : T -> Op n) A l,
+  pairing n A (osum n (map (fun x => oscale n (c x) (h x)) l))
+  = csum (map (fun x => cmul (c x) (pairing n A (h x))) l).
+Proof.
+  induction l as [|x l IH]; cbn [map osum fold_right csum].
+  - apply pairing_zero_r.
+  - rewrite pairing_add_r, pairing_scale_r. f_equal. exact IH.
+Qed.
+
+(* the upstream block structure: G M = tr[ X (OA (x) M) ] *)
+Definition G (m : nat) (X : QT M2 m) (OA : QT C m) (M : M2) : C :=
+  gpair (fun sigma c => cmul c (pairing 1 sigma M)) m X OA.
+Lemma gpair_ext : forall {L1 L2} (f g : L1 -> L2 -> C), (forall x y, f x y = g x y) ->
+  forall m X Y, gpair f m X Y = gpair g m X Y.
+Proof.
+  intros L1 L2 f g H; induction m as [|m IH]; intros X Y.
+  - apply H.
+  - cbn [gpair]. rewrite !IH. reflexivity.
+Qed.
+Lemma G_add : forall m X OA M1 M2', G m X OA (oadd 1 M1 M2') = cadd (G m X OA M1) (G m X OA M2').
+Proof.
+  unfold G; induction m as [|m IH]; intros X OA M1 M2'.
+  - cbn [gpair]. rewrite pairing_add_r. ring.
+  - cbn [gpair]. rewrite !IH. ring.
+Qed.
+Lemma G_scale : forall m X OA a M, G m X OA (oscale 1 a M) = cmul a (G m X OA M).
+Proof.
+  unfold G; induction m as [|m IH]; intros X OA a M.
+  - cbn [gpair]. rewrite pairing_scale_r. ring.
+  - cbn [gpair]. rewrite !IH. ring.
+Qed.
+Lemma G_zero : forall m X OA, G m X OA (ozero 1) = cz.
+Proof.
+  unfold G; induction m as [|m IH]; intros X OA.
+  - cbn [gpair]. rewrite pairing_zero_r. ring.
+  - cbn [gpair]. rewrite !IH. ring.
+Qed.
+Lemma G_osum : forall m X OA {T} (c : T -> C) (h : T -> M2) l,
+  G m X OA (osum 1 (map (fun x => oscale 1 (c x) (h x)) l)) = csum (map (fun x => cmul (c x) (G m X OA (h x))) l).
+Proof.
+  induction l as [|x l IH]; cbn [map osum fold_right csum].
+  - apply G_zero.
+  - rewrite G_add, G_scale. f_equal. exact IH.
+Qed.
+
+(* the downstream fragment seen from the cut wire: an effective 2x2 observable *)
+Definition Meff (k : nat) (tau : Op k) (W : Op (S k)) : M2 :=
+  mkQ (pairing k tau (q00 W)) (pairing k tau (q01 W)) (pairing k tau (q10 W)) (pairing k tau (q11 W)).
+Lemma down_prep_eff : forall k tau W sigma, down_prep k tau W sigma = pairing 1 sigma (Meff k tau W).
+Proof.
+  intros k tau W [a b c d]. unfold down_prep, kron2, Meff.
+  cbn [pairing q00 q01 q10 q11]. rewrite !pairing_scale_l. reflexivity.
+Qed.
+Lemma uncut_is_G : forall m k X OA tau W, uncut m k X OA tau W = G m X OA (Meff k tau W).
+Proof.
+  intros. unfold uncut, G. apply gpair_ext. intros sigma c.
+  rewrite pairing_scale_r. f_equal. apply down_prep_eff.
+Qed.
+Lemma up_meas_is_G : forall m X OA p, up_meas m X OA p = G m X OA (pmat p).
+Proof. reflexivity. Qed.
+
+Lemma pauli_coeff_from_preps : forall (M : M2) p,
+  pairing 1 (pmat p) M = csum (map (fun s => cmul (cob p s) (pairing 1 (pstate s) M)) preps).
+Proof.
+  intros M p. rewrite (pairing1_sym (pmat p) M), (prepare_resolution p), pairing_osum_r.
+  f_equal. apply map_ext; intro s. rewrite (pairing1_sym M). reflexivity.
+Qed.
+
+(* single cut, environments of any size *)
+Theorem one_cut_formula : forall m k (X : QT M2 m) (OA : QT C m) (tau : Op k) (W : Op (S k)),
+  uncut m k X OA tau W
+  = cmul chalf (csum (map (fun p => cmul (csum (map (fun s => cmul (cob p s) (down_prep k tau W (pstate s))) preps))
+                                         (up_meas m X OA p)) paulis)).
+Proof.
+  intros. rewrite uncut_is_G.
+  destruct (Meff k tau W) as [a b c d] eqn:E.
+  rewrite <- (wirecut_id a b c d) at 1. rewrite G_scale. f_equal.
+  rewrite G_osum. f_equal. apply map_ext; intro p.
+  rewrite <- up_meas_is_G. f_equal.
+  rewrite (pairing1_sym (m2 a b c d) (pmat p)). unfold m2. rewrite <- E.
+  rewrite pauli_coeff_from_preps. f_equal. apply map_ext; intro s. rewrite down_prep_eff. reflexivity.
+Qed.
+
+(* the executable contraction model on the two fragments of a single cut *)
+Lemma contract_single_cut : forall (u : pl -> C) (d : prep -> C),
+  contract 1 [frag_up u; frag_down d]
+  = cmul chalf (csum (map (fun p => cmul (csum (map (fun s => cmul (cob p s) (d s)) preps)) (u p)) paulis)).
+Proof.
+  intros u d. unfold contract, contract_with, term, tens, raw, frag_up, frag_down, GF1, paulis, preps.
+  cbn -[cmul cadd cob chalf]. unfold cob, COB. cbn -[cmul cadd chalf cq qz].
+  ring.
+Qed.
